@@ -27,12 +27,14 @@ template<class Graph> struct Comp {
         std::vector<long> idx, rev, onf, back;
         size_t m = in.edges.size();
         for (size_t i = 0; i < m; i++) {
-            long ix = (long) fi(b.edge_of[i]);
+            std::size_t raw = fi(b.edge_of[i]);
+            long ix = raw > 1000000 ? -1 : (long) raw;      // a wrapped / wild value must stay inside TLC's 32-bit integers
             idx.push_back(ix);
             onf.push_back(fi.is_on_forest(b.edge_of[i]) ? 1 : 0);
         }
         for (size_t i = 0; i < m; i++) rev.push_back(b.idx(fi(i)));          // index -> edge (1-based, 0 foreign)
-        j.arr("idx", idx).arr("rev", rev).arr("onforest", onf).i("k", (long) fi.weak_connected_components());
+        std::size_t kraw = fi.weak_connected_components();
+        j.arr("idx", idx).arr("rev", rev).arr("onforest", onf).i("k", kraw > 1000000 ? -1 : (long) kraw);
         // csd as a signed value so that a wrapped size_t is visible instead of overflowing TLC's ints
         size_t csd = fi.cycle_space_dimension();
         j.i("csd", csd > 1000000 ? -1 : (long) csd);
@@ -140,7 +142,7 @@ int main(int argc, char **argv) {
     install_handlers();
     auto graphs = read_graphs(in);
     for (size_t k = (size_t) start; k < graphs.size(); k++) {
-        g_current_item = (long) k;
+        g_current_item = (long) k; set_crash_context(graphs[k].raw);
         for (auto &m : modes) for (auto &t : types) {
             alarm(60);
             if (t == "double") run_mode<GraphD>(m, graphs[k], "double");
